@@ -94,7 +94,7 @@ func (w *WideQ) opts() Opts {
 
 var wideConstructs = []string{"filter", "case", "in-list", "between", "fn-args", "group", "group-having", "group-by-expr", "whole-agg", "join", "left-join", "parallel-join",
 	"hash-join", "cte", "cte-twice", "derived", "sel-sub", "sel-sub-root", "in-sub", "exists", "not-exists", "union", "union-all", "order-limit", "distinct", "nested-from", "star-sub", "like-is", "join-derived", "cte-join", "in-sub-root", "exists-outer", "having-agg",
-	"join-on-fn", "join-on-fn", "join-unaliased", "join-unaliased", "derived-cte", "join-derived-cte", "in-sub-cte", "sel-sub-cte", "exists-cte", "cte-union", "cte-nested", "selector-item", "selector-item", "selector-item", "fuse-item", "cte-path", "star-plain", "star-plain", "group-qualified", "cte-union-nested"}
+	"join-on-fn", "join-on-fn", "join-unaliased", "join-unaliased", "derived-cte", "join-derived-cte", "in-sub-cte", "sel-sub-cte", "exists-cte", "cte-union", "cte-nested", "selector-item", "selector-item", "selector-item", "fuse-item", "cte-path", "star-plain", "star-plain", "group-qualified", "cte-union-nested", "in-array-column"}
 
 func genWide(t *rapid.T, only []string) *WideQ {
 	doc, sc := genC07Doc(t)
@@ -369,6 +369,17 @@ func genWideOn(t *rapid.T, doc map[string]any, sc *c07Schema, only []string) *Wi
 			w.Tpl = fmt.Sprintf("WITH c AS (SELECT {F@cte-body:%s} AS u FROM {T}), d AS (SELECT u FROM c UNION SELECT u FROM c WHERE u %s %s) SELECT * FROM d", k, op("op"), num("c"))
 			w.Unordered = true
 		}
+	case "in-array-column":
+		// IN / NOT IN whose list is (or contains) an array-valued column of the row: elements that are objects
+		// with one key, scalars, NULL
+		rows, _ := doc["t"].([]any)
+		for r, row := range rows {
+			if rm, ok := row.(map[string]any); ok {
+				rm["lst"] = []any{map[string]any{"r": rapid.SampledFrom([]any{1.0, "a", 2.0}).Draw(t, fmt.Sprintf("lst%d.a", r))}, map[string]any{"r": "b"}, rapid.SampledFrom([]any{"a", 1.0, nil, 3.0}).Draw(t, fmt.Sprintf("lst%d.b", r))}
+			}
+		}
+		w.Tpl = fmt.Sprintf("SELECT {F@select-item:%s} AS a1, %s FROM {T} WHERE %s %sIN (%s)", k, s, rapid.SampledFrom([]string{k, s}).Draw(t, "inarr.col"), rapid.SampledFrom([]string{"", "NOT "}).Draw(t, "inarr.not"),
+			rapid.SampledFrom([]string{"lst", items, "lst, 5", "`lst[each].r`", "lst, " + items}).Draw(t, "inarr.list"))
 	case "like-is":
 		w.Tpl = fmt.Sprintf("SELECT %s, %s FROM {T} WHERE {F@like-operand:%s} LIKE %s OR {F@is-operand:%s} IS NULL OR %s IS NOT NULL", k, s, s, sq.StrLit(rapid.SampledFrom([]string{"a%", "%b", "_", "%"}).Draw(t, "pat")), "nokey", v)
 	}
